@@ -53,6 +53,13 @@ package account
 //@   ensures validAccount(result)
 //@   ensures @lookup: tlen() == old(tlen()) + 2 && targ("MustGet", 0, old(tlen())) == "Income" && result == tres("MustGet", old(tlen()) + 1)
 //
+// swapName: the name looked up for the counterpart: assets <-> liabilities, income <-> expenses, the
+// type prefix replaced; an equity account is its own counterpart.
+//@ def swapName(a *Account) string := a.accountType == 0 ? cat("Liabilities", trimPrefix(a.name, "Assets"))
+//@     : (a.accountType == 1 ? cat("Assets", trimPrefix(a.name, "Liabilities"))
+//@     : (a.accountType == 3 ? cat("Expenses", trimPrefix(a.name, "Income"))
+//@     : (a.accountType == 4 ? cat("Income", trimPrefix(a.name, "Expenses")) : a.name)))
+//
 // SwapType: a cache hit returns the cached account, a miss looks the swapped name up and caches it
 // under the given account only.
 //@ func (*Registry).SwapType
@@ -63,6 +70,7 @@ package account
 //@   ensures @hit: old(a in as.swaps) ==> result == old(as.swaps[a]) && tlen() == old(tlen()) && dom(as.swaps) == old(dom(as.swaps)) && vals(as.swaps) == old(vals(as.swaps))
 //@   ensures @miss: !old(a in as.swaps) ==> tlen() == old(tlen()) + 1 && result == tres("Get", old(tlen())) && validAccount(result)
 //@        && dom(as.swaps) == upd(old(dom(as.swaps)), a, true) && vals(as.swaps) == upd(old(vals(as.swaps)), a, result)
+//@   ensures [C02] @counterpart: !old(a in as.swaps) ==> targ("Get", 0, old(tlen())) == swapName(a)
 //
 // A mapping is well formed when levels and suffixes are not negative (the flag parser must ensure it).
 //@ def wfMapping(m Mapping) bool := forall i int :: {m[i]} 0 <= i && i < len(m) ==> m[i].Level >= 0 && m[i].Suffix >= 0
